@@ -22,10 +22,16 @@ CLAIMED = {
              technique="deterministic simulation: scan thread vs notification interleavings over the real Server::serve, single-analysis oracle", ref="§8 C10"),
  "C11": dict(note="Library + every real handler at every recorded span boundary and hostile position after valid -> unparsable multi-byte edits (stale spans); full stack with malformed/unreadable/non-UTF-8/symlink-loop files and broken plugin metadata during the scan, frame fragmentation/coalescing, $/cancelRequest, late/erroring refresh answers, EOF mid-frame; invariants: no panic, exactly one response per request id, probe answered after the last fault, scan completes and indexes well-formed files.",
              technique="deterministic simulation with fault injection (transport, filesystem adversary, stale-span histories): crash/wedge invariants", ref="§8 C11, §6.3"),
+ "C12": dict(note="Real scan (1-4 shim workers) + editing thread + one or two query threads (every public query and every handler) run concurrently under 1-shard placement (half of the runs: every two keys of a map collide), 2/4/16 shards, PCT depth<=3 and random walks; cyclic inputs (circular/self imports via star/explicit/pytest_plugins, 3-module rings, circular and self-referential fixture dependencies, directory chains of depth 20-60). Scheduler-detected deadlock/self-deadlock, per-operation bound of 200k own steps, run budget. The same detectors are active in every run of every other check.",
+             technique="deterministic simulation: lock-level scheduler with deadlock detection, adversarial shard placement, PCT schedules", ref="§8 C12"),
+ "C13": dict(note="Generated trees (file names near the patterns, ignored/near-ignored directory names at any depth, valid and invalid exclude globs, venv inside the root) scanned through Config::load + scan_workspace_with_excludes at 3-4 absolute locations (neutral, ancestors named like ignored directories, ancestor containing 'site-packages'): file set vs discovery model, relative snapshots equal across locations; separate fault batch: invalid UTF-8, EISDIR, dangling symlink, symlink loop, truncate, and delete/rewrite between walk and read by an adversary thread at a generated scheduler step - faulted files may be missing, nothing else changes.",
+             technique="deterministic simulation with filesystem fault injection and relocation metamorphic relation", ref="§8 C13"),
  "C14": dict(note="Generated import graphs (star/explicit/pytest_plugins, relative/absolute, transitive, cycles, 3-module rings, last-assignment-wins) and synthetic venvs (dist-info/egg-info entry points, module vs package targets, _pytest, in-workspace editable installs, .pth naming variants); visible names, origins and third-party/plugin classification compared with the reachability model and across two sigmas; third-party never among symbols.",
              technique="deterministic simulation: seeded scans (hash seed, readdir order, schedule), reachability-model oracle", ref="§8 C14, §7.1"),
  "C19": dict(note="Full stack after scan completion: generated open/change histories over documents and conftests with pyproject.toml variants (valid subsets, unknown codes, invalid globs, malformed TOML, absent), fragmented transport, late/erroring refresh answers; at quiescence the last publishDiagnostics for the changed uri equals the library's findings on a fresh twin minus validly disabled codes; exactly one publish per notification; server keeps serving.",
              technique="deterministic simulation: client actor over simulated transport, fresh-twin diagnostics oracle", ref="§8 C19"),
+ "C20": dict(note="Real CLI (clap parsing, handlers, process::exit) in seeded child processes of the harness binary under R sigmas (workers, hash seed, shards, schedule, readdir order): unused list = project non-autouse zero-reference fixtures of the in-process server index; exit status; JSON valid and equal to text; list counts = |references|; filters partition; stdout byte-identical across sigmas.",
+             technique="deterministic simulation: seeded child processes under different schedules/configurations, server-index oracle", ref="§8 C20"),
  "C16": dict(note="Generated dependency graphs (rings, self-loops with/without parent, overridden names, unknown deps) x scope assignments; reported cycles must be closed chains in the reference graph over resolved definitions, every cyclic SCC reported, override pattern never a cycle, scope mismatch iff resolved dependency is narrower; stability across sigma is checked by C08's snapshot.",
              technique="deterministic simulation: seeded scans, reference dependency-graph oracle", ref="§8 C16, §7.1"),
 }
